@@ -697,7 +697,9 @@ theorem C06_code_coherent_failure_atomic (C : Codec V) (hrt : C.RoundTrip) (raw 
 
 /-- **Lock discipline of the translated bodies** (regenerated, decided on every run): on every path of
 `Get/Has/Compute/Set/Delete` the shared cache fields are read only with the read or the write lock held; store
-calls, codec calls, the compute function and every write of the cache fields happen only with the write lock held;
+calls, codec calls, the compute function and every write of the cache fields happen only with the write lock held —
+the foreign ones (store, codecs, compute function) moreover only with its release **deferred**, so a panic in them
+cannot leave the mutex locked (the harness's `compute boom` exercises exactly that on the real code);
 no lock is taken while one is held; and every `return` happens with no lock held or with its release deferred.
 This is the shape the protocol model of `C06_serialised` assumes (fast path under `RLock`, everything else inside
 one write section) — e.g. a cache inspection moved in front of `Lock()`, which leaves the lock skeleton and the
@@ -770,7 +772,10 @@ example :
 /-- The walk is not vacuous: it rejects a body that inspects the cache before taking the lock, and one that
 returns with the lock held. -/
 example : lockOk (.seq (.cached 1 2) (.seq (.sync .lock) (.seq (.sync .deferUnlock) (.ret [])))) = false ∧
-    lockOk (.seq (.sync .lock) (.ret [])) = false := by decide
+    lockOk (.seq (.sync .lock) (.ret [])) = false ∧
+    -- explicit unlock instead of `defer`: a panic of the compute function would leave the mutex locked
+    lockOk (.seq (.sync .lock) (.seq (.callFn 3 4 1 2) (.seq (.sync .unlock) (.ret [])))) = false ∧
+    lockOk (.seq (.sync .lock) (.seq (.sync .deferUnlock) (.seq (.callFn 3 4 1 2) (.ret [])))) = true := by decide
 
 /-- Non-vacuity: the translated `Compute` on the concrete codec, a failing encoder: reported, nothing stored. -/
 example : (execOp prog codec64 (fresh none) (.compute fun _ _ => .ok 5) { enc := true }).out = .err .enc ∧
